@@ -335,6 +335,11 @@ def gen_case(rng, idx):
         for _ in range(rng.randint(2, 6)):
             ops.append(["draw", rng.randint(0, 1)])
         return {"kind": "shared", "streams": [stream_spec(rng)], "ops": ops}
+    if r < 0.73:       # a quantity wrapper built before the wrapped distribution is re-pointed
+        q, unit = rng.choice(QUANTITIES)
+        s_old, s_new = stream_spec(rng), stream_spec(rng)
+        return {"kind": "wrapped-repoint", "streams": [s_old, s_new, dict(s_new)],
+                "ops": wrapped_repoint_ops(cname, gen_params(rng, cname, False), q, unit, rng.randint(0, 3), rng.randint(1, 3))}
     if r < 0.74:       # rewind the stream, re-assign the same stream object, compare with a fresh twin
         s = stream_spec(rng)
         return {"kind": "sameobj", "streams": [s, dict(s)],
@@ -425,6 +430,31 @@ def same_object_cases(rng):
             s = stream_spec(rng, script=[], kind="mt" if (ci + k) % 2 else "script")
             cases.append({"kind": "sameobj", "streams": [s, dict(s)],
                           "ops": same_object_ops(cname, ps, k, "reset" if k % 2 else "set_seed")})
+    return cases
+
+
+def wrapped_repoint_ops(cname, ps, q, unit, k, m=3):
+    ops = [["new", 0, cname, True, 0, ps], ["new", 1, cname, True, 2, ps],
+           ["wrap", 0, q, unit], ["wrap", 1, q, unit]]
+    ops += [["drawq", 0, q, unit]] * k
+    ops.append(["set", 0, True, 1])               # re-point the WRAPPED distribution; the wrapper exists already
+    ops += [["drawq", 0, q, unit]] * m
+    ops += [["drawq", 1, q, unit]] * m             # reference: the same on a stream seeded like the new one
+    return ops
+
+
+def wrapped_repoint_cases(rng):
+    """Every class inside a quantity wrapper (DurationDist, LengthDist, ...) that was built BEFORE the wrapped
+    distribution is pointed at another stream: the wrapper's draws must come from the new stream (nothing more of the
+    old one is consumed) and equal those of a reference wrapper on a stream seeded like the new one."""
+    cases = []
+    for ci, cname in enumerate(CLASSES):
+        for k in (0, 1):
+            q, unit = QUANTITIES[(ci + k) % len(QUANTITIES)]
+            ps = gen_params(rng, cname, False)
+            s_old, s_new = stream_spec(rng, script=[]), stream_spec(rng, script=[])
+            cases.append({"kind": "wrapped-repoint", "streams": [s_old, s_new, dict(s_new)],
+                          "ops": wrapped_repoint_ops(cname, ps, q, unit, k)})
     return cases
 
 
@@ -711,6 +741,10 @@ def oracle(case, res):
     for k, (op, out) in enumerate(zip(ops, outs)):
         if op[0] == "reset":
             continue            # the harness rewinds a stream; what it delivers afterwards is appended to `delivered`
+        if op[0] == "wrap":
+            if out and out[0] == "raise":
+                findings.append((f"quantity-wrapper-raises:{op[2]}", f"{op[2]}Dist(<{inst_cls(case, op)}>, {op[3]!r}) raised {out[1]}: {out[2]}", k))
+            continue            # building a quantity wrapper: no stream output may be consumed (accounted below)
         if op[0] == "new":
             _, i, cname, sok, sid, params = op
             vals = [pval(p) for p in params]
@@ -837,6 +871,18 @@ def pair_oracles(case, res, solo_res):
         if a != b:
             k = next(j for j, (x, y) in enumerate(zip(a, b)) if x != y)
             findings.append((f"twin-streams-differ:{ops[0][2]}", f"equal parameters on equally seeded streams: draw #{k} gives {a[k][:3]} vs {b[k][:3]}", k))
+    if case["kind"] == "wrapped-repoint":
+        ks = next(j for j, op in enumerate(ops) if op[0] == "set")
+        a = [o for op, o in list(zip(ops, outs))[ks + 1:] if op[0] == "drawq" and op[1] == 0]
+        b = [o for op, o in zip(ops, outs) if op[0] == "drawq" and op[1] == 1]
+        n = min(len(a), len(b))
+        if a[:n] != b[:n]:
+            k = next(j for j, (x, y) in enumerate(zip(a, b)) if x != y)
+            findings.append((f"quantity-wrapper-ignores-repointing:{ops[0][2]}",
+                             f"{ops[2][2]}Dist({ops[0][2]}{tuple(pval(p) for p in ops[0][5])}, {ops[2][3]!r}) built before "
+                             f"`dist.stream = other`: draw #{k} through the wrapper afterwards gives {a[k][1:6]} (value, unit, factor, "
+                             f"uniforms of the new stream, uniforms of other streams) but a reference wrapper on a stream seeded like "
+                             f"the new one gives {b[k][1:6]}", ks))
     if case["kind"] == "sameobj":
         ks = next(j for j, op in enumerate(ops) if op[0] == "set")
         a = [o for op, o in list(zip(ops, outs))[ks + 1:] if op[0] == "draw" and op[1] == 0]
@@ -888,8 +934,8 @@ def coq_case(case, res, powtab):
     ops_c, exp_c = [], []
     accepted = {}
     for op, out in zip(case["ops"], res["outs"]):
-        if op[0] == "reset":
-            continue        # not an operation of the model: the recorded stream output simply goes on
+        if op[0] in ("reset", "wrap"):
+            continue        # not operations of the model: the recorded stream output simply goes on; the wrapper is the instance
         if op[0] == "new":
             _, i, cname, sok, sid, params = op
             ops_c.append(f"ONew {i} {COQ_CLS[cname]} {C.cbool(sok)} {sid} {C.clist(cparam(p) for p in params)}")
@@ -1107,6 +1153,8 @@ def shrink(case, res, k, sig):
                 ops.append(["set", 0, o[2], remap.get(o[3], 0)])
             elif o[0] == "drawq":
                 ops.append(["drawq", 0, o[2], o[3]])
+            elif o[0] == "wrap":
+                ops.append(["wrap", 0, o[2], o[3]])
             else:
                 ops.append(["draw", 0])
         cand = {"kind": "shrunk", "streams": streams, "ops": ops}
@@ -1174,6 +1222,7 @@ def main(tier: str) -> int:
     cases += targeted_cases(rng)
     cases += refused_repoint_cases(rng)
     cases += same_object_cases(rng)
+    cases += wrapped_repoint_cases(rng)
     cases += nonfinite_parameter_cases(rng)
     for i in range(n_random):
         cases.append(gen_case(rng, i))
@@ -1207,7 +1256,7 @@ def main(tier: str) -> int:
             if out and out[0] == "raise":
                 hist_exc[out[1]] = hist_exc.get(out[1], 0) + 1
         n_draws += info["draws"]
-        if info["special"] or info["retry"] or c["kind"] in ("twin", "isolation", "repoint", "refused", "sameobj", "shared", "quantity") \
+        if info["special"] or info["retry"] or c["kind"] in ("twin", "isolation", "repoint", "refused", "sameobj", "wrapped-repoint", "shared", "quantity") \
                 or (c["kind"] == "ctor"):
             nontrivial.add(json.dumps(public(c), sort_keys=True))
     run.cov["evaluations"] = len(cases)
